@@ -10,7 +10,7 @@ NOUPD = [(False, '', 'none'), (True, 'true', 'none'), (False, 'true', 'false'), 
 
 def make_spec(g, allow):
     h = gen_history(g, allow, max_tests=3, max_calls=4)
-    return dict(cfgs=h.cfgs, execs=h.execs, flags=set(h.flags), mode=g.r.choice(NOUPD), seed=g.r.randrange(1 << 30))
+    return dict(cfgs=h.cfgs, execs=h.execs, flags=set(h.flags), mode=g.r.choice(NOUPD), seed=g.r.randrange(1 << 30), edit=suites.edit_choice(g.r, h.execs))
 
 
 def render(tag, spec):
@@ -26,6 +26,8 @@ def render(tag, spec):
     for ei, (name, calls) in enumerate(spec['execs']):
         texec += 1
         rec[ei] = emit_exec(w, texec, name, calls)
+    if spec.get('edit'):
+        w.add('fsedit ' + spec['edit'])
     ref = w.add('fsdump')
     ci, upd, cfgupd = spec['mode']
     w.add('reset')
